@@ -95,13 +95,28 @@ def gen_cases(out, explore):
             traces.append((j + 1, 1 + rnd.randrange(rnd.choice([1, 2, 3])), t))
         cases.append(dict(traces=traces, bs=rnd.choice([1, 2, 3, 1000]), order=rnd.choice(["seq", "interleave", "reverse"]),
                           buf=0, oseed=rnd.randrange(10**6)))
+    for _ in range(n_rand // 3):
+        ntr = rnd.choice([3, 5, 8])
+        base = [rand_tree(rnd, rnd.choice([1, 2, 3, 5]), 2) for _ in range(2)]
+        traces, times = [(900, 9, (1, [])), (901, 9, (1, []))], {900: T0, 901: T0 + 10 * MIN - 100}
+        for j in range(ntr):
+            traces.append((j + 1, 1 + rnd.randrange(2), shuffle_tree(rnd, rnd.choice(base))))
+            where = rnd.choice(["in", "in", "before", "after", "edge"])
+            times[j + 1] = {"in": T0 + 2 * MIN + rnd.randrange(6 * MIN), "before": T0 + rnd.randrange(MIN // 2),
+                            "after": T0 + 9 * MIN + MIN // 2 + rnd.randrange(MIN // 4), "edge": T0 + MIN - rnd.choice([0, 1, 3, 20])}[where]
+        cases.append(dict(traces=traces, bs=rnd.choice([1, 2, 1000]), order=rnd.choice(["seq", "interleave"]), buf=1,
+                          times=times, oseed=rnd.randrange(10**6)))
     return cases, n_exh, n_rand
+
+
+MIN = 60 * 10**9
+T0 = 1_700_000_000 * 10**9
 
 
 def events_of(case):
     evs_by_trace, nid = [], 1
-    for job, name, t in case["traces"]:
-        e = flatten(t, job, name, nid)
+    for k, (job, name, t) in enumerate(case["traces"]):
+        e = flatten(t, job, name, nid, t0=case.get("times", {}).get(job, 1000))
         nid += len(e)
         evs_by_trace.append(e)
     if case["order"] == "seq":
@@ -137,15 +152,26 @@ def run_impl(case, path):
     return status, (out, h._min_timestamp, h._max_timestamp)
 
 
-def oracle(case, sel):
+def in_window(case, job, t, lo, hi):
+    t0 = case.get("times", {}).get(job, 1000)
+    n = len(flatten(t, job, 1, 1, t0=t0))
+    return any(lo <= t0 + k <= hi or lo <= t0 + k + 5 <= hi for k in range(n))
+
+
+def oracle(case, sel, mn=None, mx=None):
     want = {}
+    lo, hi = (mn + case["buf"] * MIN, mx - case["buf"] * MIN) if case["buf"] else (None, None)
     for job, name, t in case["traces"]:
+        if case["buf"] and not in_window(case, job, t, lo, hi):
+            continue
         want.setdefault((name, canon_py(t)), []).append(job)
     got = {}
     bytrace = {job: (name, canon_py(t)) for job, name, t in case["traces"]}
     for name, job in sel:
         if job not in bytrace or bytrace[job][0] != name:
             return f"selected ({name},{job}) is not a stored trace of that workflow"
+        if bytrace[job] not in want:
+            return f"selected trace {job} has no span start or end inside the buffered window"
         got.setdefault(bytrace[job], []).append(job)
     for k, js in got.items():
         if len(js) > 1:
@@ -159,7 +185,7 @@ def oracle(case, sel):
 def cases_v(items) -> str:
     rows = []
     for case, nodes, (sel, mn, mx) in items:
-        rows.append(f"(({case['bs']}%nat, ({coq_z(mn)}, {coq_z(mx)}), {S.coq_store(nodes, [])}), "
+        rows.append(f"(({case['bs']}%nat, ({coq_z(mn + case['buf'] * MIN)}, {coq_z(mx - case['buf'] * MIN)}), {S.coq_store(nodes, [])}), "
                     + coq_list([f"({n}%positive, {j}%positive)" for n, j in sel]) + ")")
     body = ";\n ".join(rows)
     return f"""From Coq Require Import ZArith List Bool. Import ListNotations.
@@ -217,7 +243,7 @@ def run(out: common.Outcome, explore: int = 0) -> None:
             if st != "ok":
                 bad.append((k, f"find_unique_graphs raised {st}", None))
                 continue
-            why = oracle(case, res[0])
+            why = oracle(case, res[0], res[1], res[2])
             if why:
                 bad.append((k, why, res[0]))
             items.append((case, nodes, res))
@@ -280,7 +306,7 @@ def replay(out: common.Outcome, rp: dict) -> None:
     case["traces"] = [(j, n, tup(t)) for j, n, t in case["traces"]]
     with common.Scratch("c09r") as d:
         st, res = run_impl(case, str(d / "r.db"))
-    why = f"raised {st}" if st != "ok" else oracle(case, res[0])
+    why = f"raised {st}" if st != "ok" else oracle(case, res[0], res[1], res[2])
     print("selected:", res[0] if res else None, "verdict:", why)
     if why:
         out.violation(rp)
